@@ -4,6 +4,7 @@ generations are in contracts/nm_step.py; the offsets `val` of the initial simple
 _setSimplexWithinRangeBoundary, under contract in contracts/initial_points.py (here: an arbitrary vector)."""
 import itertools
 from pyvc.contract import contract
+from contracts._shared import save_probe, check_dump_after_record
 
 SO = 'mystic/scipy_optimize.py'
 AS = 'mystic/abstract_solver.py'
@@ -40,13 +41,13 @@ def _common(h, nrec, pop, popE, extra_summaries=None, cons_ret='same_nd'):
             I.st.heap[I.st.heap[m][f]].append(0.0)
         return None
     table = {(SO, 'NelderMeadSimplexSolver._process_inputs'): process_inputs, (AS, 'AbstractSolver._bootstrap_objective'): bootstrap,
-             (AS, 'AbstractSolver.__save_state'): lambda I, c, a, k: None, (MONF, 'Monitor.__call__'): mon_call}
+             (AS, 'AbstractSolver.__save_state'): save_probe, (MONF, 'Monitor.__call__'): mon_call}
     table.update(extra_summaries or {})
     h.set_summaries(table)
     return s, cons, cost
 
 
-@contract('C01/NM._Step/generation=0,N=2', ['C01', 'C03', 'C04', 'C08'], NM + '._Step', native=False)
+@contract('C01/NM._Step/generation=0,N=2', ['C01', 'C03', 'C04', 'C08', 'C06'], NM + '._Step', native=False)
 def nm_gen0(h):
     """the guess is constrained, evaluated exactly once and exactly there; vertex 0 is that point with that energy, the
     other vertices carry the initial +inf; one record, one callback, termination initialised"""
@@ -71,13 +72,14 @@ def nm_gen0(h):
     h.check('C04/one-step-monitor-record-of-the-best', 'len(recs) == 1 and seq_eq(recs[0][0], c) and recs[0][1] == fc', **e)
     h.check('C04/callback-once-with-the-best', 'len(cbs) == 1 and seq_eq(cbs[0][0], c)', **e)
     h.check('C05/termination-condition-initialised', 'len(terms) == 1', **e)
+    check_dump_after_record(h)
     # representation invariant the later generations rely on (their contracts take population / popEnergy as arrays of
     # reals): whatever the constraints return, the simplex must be able to hold any real trial point unchanged
     h.check('C01/simplex-and-energies-are-float-arrays-whatever-the-constraints-return',
             's.population.dtype == float and s.popEnergy.dtype == float', **e)
 
 
-@contract('C08/NM._Step/generation=1,N=2', ['C08', 'C01', 'C04'], NM + '._Step', native=False)
+@contract('C08/NM._Step/generation=1,N=2', ['C08', 'C01', 'C04', 'C06'], NM + '._Step', native=False)
 def nm_gen1(h):
     """the initial simplex: vertex k+1 is vertex 0 with coordinate k replaced by val[k], each evaluated once in that order;
     afterwards the vertices are sorted by energy (vertex 0 the best, passed through the constraints), one record,
@@ -118,3 +120,4 @@ def nm_gen1(h):
     h.check('C04/one-step-monitor-record-of-the-best', 'len(recs) == 1 and seq_eq(recs[0][0], p0) and recs[0][1] == e0',
             recs=recs, p0=h.ev('p[0]', p=pop1), e0=E[0])
     h.check('C04/callback-once-with-the-best', 'len(cbs) == 1 and seq_eq(cbs[0][0], p0)', cbs=cbs, p0=h.ev('p[0]', p=pop1))
+    check_dump_after_record(h)
